@@ -356,6 +356,12 @@ def blowup_inputs():
         out.append(('accessor_lookahead:' + u, '({', u, ''))
     for u in ['return\n', 'break//\n', 'continue/**/\n', 'throw /*\n*/']:
         out.append(('restricted_lookahead:' + u, '', u, ''))
+    # runs of separators between a token that arms a look-ahead (get / set, restricted keywords, anything)
+    # and a token that makes it fail
+    for pre in ['x = {get', 'o.set', 'get', 'x = {a: set', 'function f(){ return', 'for(;;){ continue', 'a', 'x = 1', '}', 'a.b']:
+        for u in [' ', '\n', '\t\xa0', '/**/', '//\n', ' \n']:
+            for suf in [': 1}', '(1);', ';', '= 2', '"']:
+                out.append(('separator_run:%s:%s:%s' % (pre, u, suf), pre, u, suf))
     return out
 
 
@@ -367,11 +373,17 @@ boot.pin(%(root)r)
 from calmjs.parse.parsers.es5 import parse
 from vk.mon import c12
 parse('a')
+slow = 0
+t_start = time.monotonic()
 for label, prefix, unit, suffix in c12.blowup_inputs():
+    if slow >= 4 or time.monotonic() - t_start > 100:
+        break       # enough witnesses, or enough time spent: what was probed is reported
     for n in c12.BLOWUP_COUNTS:
         text = prefix + unit * n + suffix
         if len(text) > 1400:
             break
+        print(json.dumps(['START', label, n, text]))
+        sys.stdout.flush()
         t0 = time.process_time()
         try:
             parse(text)
@@ -382,6 +394,7 @@ for label, prefix, unit, suffix in c12.blowup_inputs():
         print(json.dumps([label, n, len(text), round(dt, 4), outcome, text if dt > c12.BLOWUP_LIMIT_S else '']))
         sys.stdout.flush()
         if dt > c12.BLOWUP_LIMIT_S:
+            slow += 1
             break
 '''
 
@@ -395,7 +408,10 @@ def blowup_probe(ctx):
     code = BLOWUP_CHILD % {'verif': os.path.dirname(os.path.dirname(os.path.dirname(os.path.abspath(__file__)))),
                            'root': os.environ[boot.ENV_SCRATCH]}
     try:
-        r = subprocess.run([sys.executable, '-c', code], capture_output=True, text=True, timeout=420)
+        # below what is left of the shard's wall-clock watchdog (vk/run.py: 2.5 x budget + 120 s)
+        import time
+        left = ctx.budget_s * 2.5 + 120 - (time.monotonic() - ctx.t0) - 20
+        r = subprocess.run([sys.executable, '-c', code], capture_output=True, text=True, timeout=max(45, min(300, left)))
         lines, timed_out = r.stdout.split('\n'), False
         if r.returncode != 0:
             raise HarnessBroken('C12 blow-up probe child failed: %s' % r.stderr[-400:])
@@ -403,10 +419,16 @@ def blowup_probe(ctx):
         lines, timed_out = (e.stdout.decode() if isinstance(e.stdout, bytes) else (e.stdout or '')).split('\n'), True
     worst = 0.0
     labels = set()
+    started = None
     for line in lines:
         if not line.strip():
             continue
-        label, n, length, dt, outcome, text = json.loads(line)
+        rec = json.loads(line)
+        if rec[0] == 'START':
+            started = rec
+            continue
+        started = None
+        label, n, length, dt, outcome, text = rec
         labels.add(label)
         worst = max(worst, dt)
         ctx.hit('blowup_probe')
@@ -420,6 +442,30 @@ def blowup_probe(ctx):
     if timed_out:
         ctx.note('the blow-up probe child did not finish within its wall-clock watchdog; what it reported is kept')
         ctx.count('blowup_probe_watchdog')
+        if started is not None:
+            # the parse that was running: decide on CPU time, not on the wall clock - a fresh child with a CPU limit
+            _, label, n, text = started
+            one = ('import sys, json; sys.path.insert(0, %r); from vk import boot; boot.pin(%r); '
+                   'from calmjs.parse.parsers.es5 import parse\n'
+                   'try:\n    parse(json.loads(%r))\nexcept Exception:\n    pass\n') % (
+                       os.path.dirname(os.path.dirname(os.path.dirname(os.path.abspath(__file__)))),
+                       os.environ[boot.ENV_SCRATCH], json.dumps(text))
+
+            def limit():
+                import resource
+                resource.setrlimit(resource.RLIMIT_CPU, (20, 20))
+            try:
+                r2 = subprocess.run([sys.executable, '-c', one], capture_output=True, text=True, timeout=180, preexec_fn=limit)
+                killed = r2.returncode < 0
+            except subprocess.TimeoutExpired:
+                killed = None
+            ctx.hit('blowup_probe')
+            if killed:
+                ctx.violation('C12:no_result_in_bounded_time:%s' % label.split(':')[0], {'text': text, 'entry': 'timed'},
+                              'parse() used more than 20 CPU seconds on this input of %d characters (%s repeated %d '
+                              'times) and was stopped by a CPU limit' % (len(text), label, n))
+            elif killed is None:
+                ctx.count('blowup_probe_confirmation_inconclusive')
 
 
 def replay(ctx, witness):
